@@ -33,6 +33,61 @@ def fpVec (hs : List Int) : Int := H P B hs
 def fpComb (fps : List Int) : Int := H P BT fps
 def fpTab (cols : List (List Int)) : Int := Htab P B BT cols
 
+/-! ### container-valued elements
+
+`_hash_element` of a set, tuple or list is the same rolling hash over the hashes of its items (a set: of its sorted items — the
+sort is Python's and stays an oracle: the harness sends the items in sorted order), started from an accumulator that depends on
+the container's kind and length, so that `0`, `[0]`, `(0,)`, `(0, 0)`, `{0}` and `()` are hashed differently.  The starting values
+are read off the behaviour of the current source (`Gen.fpSeeds`). -/
+
+/-- starting accumulator for a container of `kind` (1 set, 2 tuple, 3 list) with `n` items -/
+def seedOf (kind n : Nat) : Int := (Gen.fpSeeds.lookup (kind, n)).getD 0
+
+/-- an element as `_hash_element` sees it: a scalar (its hash) or a container of elements -/
+inductive Elem where
+  | leaf (h : Int)
+  | seq (kind : Nat) (es : List Elem)
+
+mutual
+/-- `_hash_element(x)` -/
+def Elem.hash : Elem → Int
+  | .leaf h => h
+  | .seq k es => Elem.hashFrom es (seedOf k es.length)
+/-- the loop `for elem in items: h = (h * B + _hash_element(elem)) % P` from accumulator `t` -/
+def Elem.hashFrom : List Elem → Int → Int
+  | [], t => t
+  | e :: es, t => Elem.hashFrom es (roll P B t e.hash)
+end
+
+/-- fingerprint of a vector of (possibly container-valued) elements -/
+def fpElems (es : List Elem) : Int := fpVec (es.map Elem.hash)
+
+mutual
+/-- the leaf reached by a path of positions -/
+def Elem.leafAt : Elem → List Nat → Option Int
+  | .leaf h, [] => some h
+  | .leaf _, _ :: _ => none
+  | .seq _ _, [] => none
+  | .seq _ es, i :: rest => Elem.leafAtList es i rest
+def Elem.leafAtList : List Elem → Nat → List Nat → Option Int
+  | [], _, _ => none
+  | e :: _, 0, rest => e.leafAt rest
+  | _ :: es, i + 1, rest => Elem.leafAtList es i rest
+end
+
+mutual
+/-- the element with the leaf at `path` replaced by a scalar of hash `y` -/
+def Elem.setAt : Elem → List Nat → Int → Elem
+  | .leaf _, [], y => .leaf y
+  | .leaf h, _ :: _, _ => .leaf h
+  | .seq k es, [], _ => .seq k es
+  | .seq k es, i :: rest, y => .seq k (Elem.setAtList es i rest y)
+def Elem.setAtList : List Elem → Nat → List Nat → Int → List Elem
+  | [], _, _, _ => []
+  | e :: es, 0, rest, y => e.setAt rest y :: es
+  | e :: es, i + 1, rest, y => e :: Elem.setAtList es i rest y
+end
+
 end Serif.FP
 
 namespace Serif.Heap
